@@ -23,6 +23,9 @@ import loopref
 SPEC = common.SPEC
 
 
+NONE_MEANS = 7.0      # an explicit scale=None is a value of its own for the wrapped functions (not their default 1.0)
+
+
 def wsum_sub(sub, scale):
     flat = np.asarray(sub, dtype=np.float64).reshape(-1)
     return float(np.dot(flat, np.arange(1, flat.size + 1, dtype=np.float64)) * scale)
@@ -30,7 +33,8 @@ def wsum_sub(sub, scale):
 
 def make_reduce(rec, mode="good"):
     def wsum(x, axis, *, scale=1.0):
-        rec.append({"e": "call", "shapes": [[int(s) for s in x.shape]], "axis": [int(a) for a in (axis if isinstance(axis, (tuple, list)) else [axis])], "kw": ["scale"]})
+        rec.append({"e": "call", "shapes": [[int(s) for s in x.shape]], "axis": [int(a) for a in (axis if isinstance(axis, (tuple, list)) else [axis])], "kw": ["scale"], "kwval": repr(scale)})
+        scale = NONE_MEANS if scale is None else scale
         ax = tuple(axis) if isinstance(axis, (tuple, list)) else (axis,)
         rest = [i for i in range(x.ndim) if i not in ax]
         y = np.transpose(x, rest + list(ax)).reshape([x.shape[i] for i in rest] + [-1])
@@ -47,7 +51,8 @@ def make_reduce(rec, mode="good"):
 
 def make_elementwise(rec, mode="good"):
     def lin(x, y, *, scale=1.0):
-        rec.append({"e": "call", "shapes": [[int(s) for s in np.shape(x)], [int(s) for s in np.shape(y)]], "axis": [], "kw": ["scale"]})
+        rec.append({"e": "call", "shapes": [[int(s) for s in np.shape(x)], [int(s) for s in np.shape(y)]], "axis": [], "kw": ["scale"], "kwval": repr(scale)})
+        scale = NONE_MEANS if scale is None else scale
         r = (2.0 * x + 3.0 * y) * scale
         if mode == "wrongshape":
             return np.zeros(tuple(s + 1 for s in np.shape(r)) or (2,))
@@ -83,7 +88,7 @@ def run_item(it):
     with warnings.catch_warnings():
         warnings.simplefilter("ignore")
         op = adapt(fn)
-        for label, scale in (("first", 2.0), ("repeat", 2.0), ("new-keyword-value", 5.0)):
+        for label, scale in (("first", 2.0), ("repeat", 2.0), ("new-keyword-value", 5.0), ("none-keyword-value", None), ("int-keyword-value", 2)):
             del rec[:]
             ok, exc, res = True, None, None
             try:
@@ -96,7 +101,9 @@ def run_item(it):
             if not ok:
                 findings.append({"kind": "adapted-call-fails", "detail": "%s call raised %s" % (label, exc)})
                 continue
-            exp = reference(case, ins, scale)
+            if rec and rec[-1].get("kwval") != repr(scale):
+                findings.append({"kind": "keyword-not-forwarded-verbatim", "detail": "%s call: scale=%r was passed, the function received scale=%s" % (label, scale, rec[-1].get("kwval"))})
+            exp = reference(case, ins, NONE_MEANS if scale is None else scale)
             got = np.asarray(res)
             if got.shape != exp.shape or not np.allclose(got, exp, rtol=1e-9):
                 findings.append({"kind": "adapted-result-differs", "detail": "%s call (scale=%s): result differs from the loop notation with the same function: got %s expected %s" % (
